@@ -329,7 +329,7 @@ impl Gs {
             if let Some(ports) = &self.ports {
                 status.insert(
                     "ports".into(),
-                    Value::Array(ports.iter().map(|(n, p)| json!({"name": n, "port": p})).collect()),
+                    Value::Array(ports.iter().map(|(n, p)| if n.is_empty() { json!({"port": p}) } else { json!({"name": n, "port": p}) }).collect()),
                 );
             } else if self.null_style & 1 != 0 {
                 status.insert("ports".into(), Value::Null);
@@ -459,7 +459,9 @@ impl<'a> Generator<'a> {
                 ports.push(p);
             }
         }
-        ["default", "query", "rcon"].iter().zip(ports).map(|(n, p)| (n.to_string(), p)).collect()
+        // a port need not be named; the API leaves an empty name out (`omitempty`)
+        let unnamed = self.rng.chance(1, 6);
+        ["default", "query", "rcon"].iter().zip(ports).map(|(n, p)| (if unnamed { String::new() } else { n.to_string() }, p)).collect()
     }
 
     fn randomize_meta(&mut self, g: &mut Gs) {
